@@ -74,13 +74,21 @@ LegalNesting(prog) ==
         ~IllegalNest(prog.macros[j].body.body[x], IF prog.macros[j].body.par THEN "par" ELSE "seq")
 
 \* ---------- clauses per site
-\* fill_in_map is applicable unless a macro body indexes an alias with a parameter: that reference denotes
-\* no single fundamental qubit before the macro is expanded (R5: the statement is silent there)
+\* fill_in_map is applicable unless a macro body indexes an alias with a parameter, indexes a register parameter, or a
+\* statement passes a whole alias as an argument: such a reference denotes no single fundamental qubit before the
+\* macro is expanded (R5: the statement is silent there; C10 speaks of "any order in which each is applicable")
 MapApplicable(prog) ==
   LET fn == FundNames(prog)
       ss == MacroStmts(prog)
-  IN ~\E j \in DOMAIN ss : ss[j].k = "gate" /\ \E a \in DOMAIN ss[j].args :
-        LET x == ss[j].args[a] IN x.k = "qubit" /\ x.base.k = "reg" /\ x.base.v \notin fn /\ x.idx.k = "param"
+      all == AllStmts(prog)
+  IN /\ ~\E j \in DOMAIN ss : ss[j].k = "gate" /\ \E a \in DOMAIN ss[j].args :
+          LET x == ss[j].args[a] IN
+          x.k = "qubit" /\ ((x.base.k = "reg" /\ x.base.v \notin fn /\ x.idx.k = "param")
+                            \* a qubit of a register PARAMETER: which register it is, is known only at the call
+                            \/ x.base.k = "param")
+     \* a whole alias passed on as a register argument is no single qubit either ("full alias found in statements")
+     /\ ~\E j \in DOMAIN all : all[j].k = "gate" /\ \E a \in DOMAIN all[j].args :
+          all[j].args[a].k = "reg" /\ all[j].args[a].v \notin fn
 
 Common(c) ==
   \* (the parser reports violations it can see in the text - a register of size 0, say - as parse errors)
